@@ -50,7 +50,7 @@ RULE = (
     "distinct = sha1(case); non-trivial = nested requests were observed (depth >= 3) or the substitution changed the result."
 )
 ASSUMPTIONS = ["substitution cases are compared only for dictionaries on which the un-substituted graph evaluates (keys of the substituted dataset are still computed by caching consumers)"]
-FLOORS = {"backend_lied_exists": (150, 1500), "log_emitters_checked": (9, 9), "types_checked": (28, 28), "method_requests_matched": (106, 106), "graph_evaluations": (4000, 30000), "body_stack_checks": (1500, 10000),
+FLOORS = {"user_subclass_operations": (13, 13), "backend_lied_exists": (150, 1500), "log_emitters_checked": (9, 9), "types_checked": (28, 28), "method_requests_matched": (106, 106), "graph_evaluations": (4000, 30000), "body_stack_checks": (1500, 10000),
           "backend_calls_under_request": (8000, 60000), "option_type_validations": (20000, 100000), "substitutions_compared": (1500, 6000),
           "substitution_changed_result": (800, 3000), "implementation_calls_matched": (100000, 1000000)}
 COVER = {"substitution_inner_blocks": ["none", "cache.disabled", "logging.disabled", "mapping-form", "pair-form"]}
@@ -392,6 +392,83 @@ def substitution_case(ctx, program, o, did, tag):
         ctx.nontrivial(spec_hash(["subst", program, o, did]))
 
 
+def user_subclasses(ctx):
+    """The extension point: user-defined Evaluatable hierarchies (a subclass of a user subclass overriding the
+    operations again, a subclass of Option overriding evaluate) - every operation called on an instance is issued as
+    one request for that instance and reaches the most derived implementation."""
+    calls = []
+
+    class Base(Evaluatable):
+        def evaluate(self, options):
+            calls.append("Base.evaluate")
+            return ("base", options.get("A"))
+
+        def validate(self, options):
+            calls.append("Base.validate")
+
+        def keys(self, options):
+            calls.append("Base.keys")
+            return {"A"} & set(options)
+
+        def explain(self, options=None):
+            calls.append("Base.explain")
+            return {"A"}
+
+        def __repr__(self):
+            return type(self).__name__ + "()"
+
+    class Leaf(Base):
+        def evaluate(self, options):
+            calls.append("Leaf.evaluate")
+            return ("leaf", options.get("A"))
+
+        def keys(self, options):
+            calls.append("Leaf.keys")
+            return {"A", "B"} & set(options)
+
+    class Deeper(Leaf):
+        def evaluate(self, options):
+            calls.append("Deeper.evaluate")
+            return ("deeper", options.get("A"))  # (no super() call: see DESIGN section 6, observations)
+
+        def explain(self, options=None):
+            calls.append("Deeper.explain")
+            return {"A", "B"}
+
+    class MyOption(Option):
+        def evaluate(self, options):
+            calls.append("MyOption.evaluate")
+            return ("mine", options.get(self.key))
+
+    o = {"A": 1, "B": 2}
+    subjects = {"Base": (Base(), {"evaluate": "Base", "validate": "Base", "keys": "Base", "explain": "Base"}),
+                "Leaf": (Leaf(), {"evaluate": "Leaf", "validate": "Base", "keys": "Leaf", "explain": "Base"}),
+                "Deeper": (Deeper(), {"evaluate": "Deeper", "validate": "Base", "keys": "Leaf", "explain": "Deeper"}),
+                "MyOption": (MyOption("A"), {"evaluate": "MyOption"})}
+    for name, (obj, impls) in subjects.items():
+        for op, owner in impls.items():
+            del calls[:]
+            with Tap() as t:
+                getattr(obj, op)(dict(o))
+            mine = [e for e in t.of(op, "return") if subject_of(e[1]) is obj]
+            ctx.evaluations += 1
+            ctx.count("user_subclass_operations")
+            W = {"family": "user-subclasses", "class": name, "op": op}
+            if len(mine) != 1:
+                ctx.violation("operation-outside-request", f"{name}().{op}(o) was observed as {len(mine)} {op} request(s) for that object (expected exactly one); implementations called: {calls}", W)
+                return
+            if not calls or calls[0] != f"{owner}.{op}":
+                ctx.violation("operation-outside-request", f"{name}().{op}(o) ran {calls}, expected the most derived implementation {owner}.{op} first", W)
+                return
+            ctx.nontrivial(spec_hash(["user-subclass", name, op]))
+
+
+def subject_of(request):
+    from ..tap import subject
+
+    return subject(request)
+
+
 def log_emitters(ctx):
     """Every way the package emits a log record goes through one LogRequest: the level helpers, LogEffect attached to a
     dataset / used in a Computation, Logged in both orders, Dataset evaluation.  A pass-through tap sees exactly one
@@ -458,6 +535,7 @@ def run(ctx):
     if ctx.shard == 0:
         reflection(ctx)
         log_emitters(ctx)
+        user_subclasses(ctx)
     else:
         # every shard re-checks reflection cheaply so that the floors are shard-independent
         pass
@@ -488,7 +566,9 @@ def run(ctx):
 
 def replay(ctx, rep):
     w = rep["witness"]
-    if w.get("family") == "log-emitters":
+    if w.get("family") == "user-subclasses":
+        user_subclasses(ctx)
+    elif w.get("family") == "log-emitters":
         log_emitters(ctx)
     elif "type" in w:
         reflection(ctx)
